@@ -17,6 +17,16 @@
     non-nil slice (checked by experiment on the real code); [normalize] is what
     commit does to the working copy.
 
+    Transactions: the database handle is the committed tree, the single
+    writer lock and the number of open read transactions.  What the managed
+    calls db.Update / db.View / db.Batch do with their transaction when the
+    closure returns nil, returns an error or panics is a PARAMETER of the model
+    ([flows], the control-flow skeleton regenerated from the repository into
+    Generated/TxFlow.v); [managed_rw] / [managed_ro] run a closure under such
+    a skeleton, [batch] adds the attempts bbolt rolls back before the run that
+    decides, [sched_step] / [run_sched] let several goroutines make their moves
+    under the writer lock, [run_serial] is the serial run they are compared to.
+
     No proofs in this file. *)
 From Verif Require Import Base.Prelude.
 Local Open Scope N_scope.
@@ -345,70 +355,242 @@ Fixpoint run_ops (w : bool) (root : bkt) (ops : list op) : bkt * list result :=
       (root2, r :: rs)
   end.
 
-(** Database handle: the committed tree and whether the (single) writer lock is held. *)
-Record dbstate := { committed : bkt; writer : bool }.
-Definition init_db : dbstate := {| committed := empty_bkt; writer := false |}.
+(** Database handle: the committed tree, whether the (single) writer lock is
+    held, and how many read transactions are open (bbolt: Stats().OpenTxN). *)
+Record dbstate := { committed : bkt; writer : bool; readers : N }.
+Definition init_db : dbstate := {| committed := empty_bkt; writer := false; readers := 0 |}.
 
-(** How the closure passed to Update/View ends. *)
+(** How the closure passed to Update/View/Batch ends. *)
 Inductive outcome := OOk | OErr | OPanic.
 
 (** BeginReadWriteTx: needs the writer lock ([None] = the call would block);
     the working copy starts as the committed tree. *)
 Definition begin_rw (s : dbstate) : option (dbstate * bkt) :=
   if writer s then None
-  else Some ({| committed := committed s; writer := true |}, committed s).
+  else Some ({| committed := committed s; writer := true; readers := readers s |}, committed s).
 Definition commit (s : dbstate) (working : bkt) : dbstate :=
-  {| committed := normalize working; writer := false |}.
+  {| committed := normalize working; writer := false; readers := readers s |}.
 Definition rollback (s : dbstate) : dbstate :=
-  {| committed := committed s; writer := false |}.
+  {| committed := committed s; writer := false; readers := readers s |}.
 
-(** db.Update (bdb/db.go): begin; f; error -> Rollback, return the error;
-    panic -> the deferred Rollback runs and the panic continues; nil -> Commit. *)
-Definition update (s : dbstate) (body : list op) (o : outcome)
-  : option (dbstate * list result * outcome) :=
+(** BeginReadTx never blocks; Rollback of a read transaction closes it. *)
+Definition begin_ro (s : dbstate) : dbstate * bkt :=
+  ({| committed := committed s; writer := writer s; readers := readers s + 1 |}, committed s).
+Definition close_ro (s : dbstate) : dbstate :=
+  {| committed := committed s; writer := writer s; readers := N.pred (readers s) |}.
+
+(** ** Control-flow skeleton of the managed calls
+
+    What db.Update / db.View / db.Batch (walletdb/bdb/db.go, reached through
+    walletdb.Update / View / Batch of walletdb/interface.go) do with the
+    transaction they began, per way the closure ends, and how the call itself
+    ends for the caller.  The skeleton of the CODE is not written here: it is
+    regenerated from the repository (Generated/TxFlow.v, lib/extract_c11.py)
+    and the model below is parameterised by it.
+
+    [TCommit]: tx.Commit is the first call that ends the transaction;
+    [TRollback]: tx.Rollback is; [TLeak]: the call returns (or the panic leaves
+    it) with the transaction still open.
+    How the call ends: [Some OOk] it returns nil, [Some OErr] it returns the
+    closure's own error value, [Some OPanic] the closure's panic value comes
+    out of it, [None] anything else. *)
+Inductive tx_end := TCommit | TRollback | TLeak.
+
+Record flow := Flow {
+  at_nil : tx_end * option outcome;      (* the closure returned nil *)
+  at_err : tx_end * option outcome;      (* the closure returned a non-nil error *)
+  at_panic : tx_end * option outcome }.  (* the closure panicked *)
+
+Definition flow_at (f : flow) (o : outcome) : tx_end * option outcome :=
+  match o with OOk => at_nil f | OErr => at_err f | OPanic => at_panic f end.
+
+Record flows := Flows { fl_update : flow; fl_view : flow; fl_batch : flow }.
+
+(** End of a read-write transaction.  A leaked one keeps the writer lock. *)
+Definition finish_rw (e : tx_end) (s1 : dbstate) (working : bkt) : dbstate :=
+  match e with
+  | TCommit => commit s1 working
+  | TRollback => rollback s1
+  | TLeak => s1
+  end.
+
+(** End of a read transaction.  bbolt's Commit on a read-only transaction
+    returns ErrTxNotWritable and leaves it open. *)
+Definition finish_ro (e : tx_end) (s1 : dbstate) : dbstate :=
+  match e with
+  | TRollback => close_ro s1
+  | TCommit | TLeak => s1
+  end.
+
+(** A managed read-write call with skeleton [f]: begin; run the closure on the
+    working copy; end the transaction and the call as [f] says for the way the
+    closure ended. *)
+Definition managed_rw (f : flow) (s : dbstate) (body : list op) (o : outcome)
+  : option (dbstate * list result * option outcome) :=
   match begin_rw s with
   | None => None
   | Some (s1, w0) =>
       let (w1, rs) := run_ops true w0 body in
-      Some (match o with OOk => commit s1 w1 | _ => rollback s1 end, rs, o)
+      let (e, ret) := flow_at f o in
+      Some (finish_rw e s1 w1, rs, ret)
   end.
 
-(** db.View: a read-only transaction on the committed tree, always rolled
-    back; it does not take the writer lock. *)
-Definition view (s : dbstate) (body : list op) (o : outcome)
-  : dbstate * list result * outcome :=
-  (s, snd (run_ops false (committed s) body), o).
+(** A managed read-only call: the closure reads the committed tree. *)
+Definition managed_ro (f : flow) (s : dbstate) (body : list op) (o : outcome)
+  : dbstate * list result * option outcome :=
+  let (s1, w0) := begin_ro s in
+  let (e, ret) := flow_at f o in
+  (finish_ro e s1, snd (run_ops false w0 body), ret).
 
-(** Close and reopen of the file: identity on the committed tree (durability
-    of a committed bbolt transaction is trusted, not modelled). *)
-Definition reopen (s : dbstate) : dbstate := {| committed := committed s; writer := false |}.
+Definition update (fl : flows) := managed_rw (fl_update fl).
+Definition view (fl : flows) := managed_ro (fl_view fl).
+
+(** db.Batch: bbolt may run the closure several times (with the closures of
+    other callers in one transaction; a closure that failed there is run again
+    alone).  Every attempt but the last is rolled back whatever it did; the last
+    one ends as the skeleton says.  [attempts] = number of runs before the last. *)
+Fixpoint rolled_back_attempts (n : nat) (s : dbstate) (body : list op) : option dbstate :=
+  match n with
+  | O => Some s
+  | S n' =>
+      match begin_rw s with
+      | None => None
+      | Some (s1, w0) =>
+          let (w1, _) := run_ops true w0 body in
+          rolled_back_attempts n' (finish_rw TRollback s1 w1) body
+      end
+  end.
+
+Definition batch (fl : flows) (attempts : nat) (s : dbstate) (body : list op) (o : outcome)
+  : option (dbstate * list result * option outcome) :=
+  match rolled_back_attempts attempts s body with
+  | None => None
+  | Some s' => managed_rw (fl_batch fl) s' body o
+  end.
+
+(** Transactions the caller begins and ends itself. *)
+Definition const_flow (e : tx_end) (r : outcome) : flow :=
+  Flow (e, Some r) (e, Some r) (e, Some r).
+
+(** Close and reopen of the file: Close waits for every open transaction
+    ([None] = it never returns); otherwise the identity on the committed tree
+    (durability of a committed bbolt transaction is trusted, not modelled). *)
+Definition reopen (s : dbstate) : option dbstate :=
+  if writer s || (0 <? readers s) then None
+  else Some {| committed := committed s; writer := false; readers := 0 |}.
 
 (** Kinds of transactions the harness runs. *)
 Inductive kind :=
-| KUpdate (o : outcome)        (* walletdb.Update with a closure ending in o *)
-| KView (o : outcome)          (* walletdb.View *)
-| KManual (do_commit : bool)   (* BeginReadWriteTx ... Commit / Rollback *)
-| KManualRead.                 (* BeginReadTx ... Rollback *)
+| KUpdate (o : outcome)                  (* walletdb.Update with a closure ending in o *)
+| KView (o : outcome)                    (* walletdb.View *)
+| KBatch (o : outcome) (attempts : nat)  (* walletdb.Batch; the closure ran attempts+1 times *)
+| KManual (do_commit : bool)             (* BeginReadWriteTx ... Commit / Rollback *)
+| KManualRead.                           (* BeginReadTx ... Rollback *)
 
-Definition run_tx (s : dbstate) (k : kind) (body : list op)
-  : option (dbstate * list result * outcome) :=
+Definition run_tx (fl : flows) (s : dbstate) (k : kind) (body : list op)
+  : option (dbstate * list result * option outcome) :=
   match k with
-  | KUpdate o => update s body o
-  | KView o => Some (view s body o)
-  | KManual c => update s body (if c then OOk else OErr)
-  | KManualRead => Some (view s body OOk)
+  | KUpdate o => update fl s body o
+  | KView o => Some (view fl s body o)
+  | KBatch o n => batch fl n s body o
+  | KManual true => managed_rw (const_flow TCommit OOk) s body OOk
+  | KManual false => managed_rw (const_flow TRollback OErr) s body OOk
+  | KManualRead => Some (managed_ro (const_flow TRollback OOk) s body OOk)
   end.
 
-Fixpoint run_txs (s : dbstate) (txs : list (kind * list op)) : option (dbstate * list (list result)) :=
+Fixpoint run_txs (fl : flows) (s : dbstate) (txs : list (kind * list op))
+  : option (dbstate * list (list result)) :=
   match txs with
   | [] => Some (s, [])
   | (k, body) :: txs' =>
-      match run_tx s k body with
+      match run_tx fl s k body with
       | None => None
       | Some (s1, rs, _) =>
-          match run_txs s1 txs' with
+          match run_txs fl s1 txs' with
           | None => None
           | Some (s2, rss) => Some (s2, rs :: rss)
           end
       end
   end.
+
+(** ** Several goroutines in a managed read-write call at once
+
+    Each goroutine [i] runs job [i] through the same managed call (skeleton
+    [f]).  A scheduler picks which goroutine makes its next move: begin (only
+    when the writer lock is free: [None] otherwise, the move is not admitted),
+    one operation of the closure on its own working copy, or the end of the
+    call.  [TRun] carries the working copy, the operations still to do and the
+    results so far (latest first). *)
+Record job := Job { j_body : list op; j_out : outcome }.
+
+Inductive thread :=
+| TIdle
+| TRun (w : bkt) (todo : list op) (rs : list result)
+| TDone (rs : list result) (ret : option outcome).
+
+Record cstate := CState { c_db : dbstate; c_thr : nat -> thread }.
+
+Definition set_thr (c : nat -> thread) (i : nat) (t : thread) : nat -> thread :=
+  fun j => if Nat.eqb j i then t else c j.
+
+Definition cinit (s : dbstate) : cstate := CState s (fun _ => TIdle).
+
+Definition sched_step (f : flow) (jobs : list job) (c : cstate) (i : nat) : option cstate :=
+  match nth_error jobs i with
+  | None => None
+  | Some j =>
+      match c_thr c i with
+      | TIdle =>
+          match begin_rw (c_db c) with
+          | None => None
+          | Some (s1, w0) => Some (CState s1 (set_thr (c_thr c) i (TRun w0 (j_body j) [])))
+          end
+      | TRun w (o :: todo) rs =>
+          let (w', r) := exec_op true o w in
+          Some (CState (c_db c) (set_thr (c_thr c) i (TRun w' todo (r :: rs))))
+      | TRun w [] rs =>
+          let (e, ret) := flow_at f (j_out j) in
+          Some (CState (finish_rw e (c_db c) w) (set_thr (c_thr c) i (TDone (rev rs) ret)))
+      | TDone _ _ => None
+      end
+  end.
+
+Fixpoint run_sched (f : flow) (jobs : list job) (c : cstate) (sch : list nat) : option cstate :=
+  match sch with
+  | [] => Some c
+  | i :: sch' =>
+      match sched_step f jobs c i with
+      | None => None
+      | Some c' => run_sched f jobs c' sch'
+      end
+  end.
+
+(** The serial run of the jobs in [order], one managed call after the other. *)
+Fixpoint run_serial (f : flow) (jobs : list job) (s : dbstate) (order : list nat)
+  : option (dbstate * list (nat * list result * option outcome)) :=
+  match order with
+  | [] => Some (s, [])
+  | i :: order' =>
+      match nth_error jobs i with
+      | None => None
+      | Some j =>
+          match managed_rw f s (j_body j) (j_out j) with
+          | None => None
+          | Some (s1, rs, ret) =>
+              match run_serial f jobs s1 order' with
+              | None => None
+              | Some (s2, l) => Some (s2, (i, rs, ret) :: l)
+              end
+          end
+      end
+  end.
+
+(** The schedule in which every goroutine of [order] runs its whole call
+    before the next one begins. *)
+Definition solo_moves (jobs : list job) (i : nat) : list nat :=
+  match nth_error jobs i with
+  | Some j => repeat i (length (j_body j) + 2)
+  | None => [i]
+  end.
+Definition serial_schedule (jobs : list job) (order : list nat) : list nat :=
+  flat_map (solo_moves jobs) order.
